@@ -28,9 +28,13 @@ def register(reg):
 
     # ---- Info (metadata object): read-only views used by the slot code
     from .base import TObj
-    reg.add(Contract("iface:Info.units", pure=True, verify=False, result_fn=lambda ctx: ctx.get(ctx.self, "$units")))
-    reg.add(Contract("iface:Info.time", pure=True, verify=False, result_fn=lambda ctx: ctx.get(ctx.self, "$itime")))
-    reg.add(Contract("iface:Info.grid", pure=True, verify=False, result_fn=lambda ctx: ctx.get(ctx.self, "$grid")))
+    UNITS_KEY = z3.Const("str:units", sv.StrS)
+    reg.add(Contract("iface:Info.units", pure=True, verify=False, result_fn=lambda ctx: ctx.get(ctx.self, "meta").val(UNITS_KEY),
+                     note="Info.__getattr__: meta['units'] (always present, set by Info.__init__)"))
+    reg.add(Contract("iface:Info.time", pure=True, verify=False, result_fn=lambda ctx: ctx.get(ctx.self, "_time")))
+    reg.add(Contract("iface:Info.grid", pure=True, verify=False, result_fn=lambda ctx: ctx.get(ctx.self, "_grid")))
+    reg.add(Contract("iface:Info.mask", pure=True, verify=False, result_fn=lambda ctx: ctx.get(ctx.self, "_mask")))
+    reg.add(Contract("iface:Info.meta", pure=True, verify=False, result_fn=lambda ctx: ctx.get(ctx.self, "meta")))
 
     # ---- IInput.source_updated(time): a target may pull upstream (get_data), which only evicts:
     #      every buffer stays a suffix of what it was and keeps its newest entry
